@@ -166,7 +166,10 @@ unique_ptr<DiscreteDistributionInterface> BppODiscreteDistributionFormat::readDi
     if (args.find("n") == args.end())
       throw Exception("Missing argument 'n' (number of classes) in " + distName
             + " distribution");
-    unsigned int nbClasses = TextTools::to<unsigned int>(args["n"]);
+    int nbClassesRead = TextTools::toInt(args["n"]);
+    if (nbClassesRead < 1)
+      throw Exception("The number of classes 'n' must be positive in " + distName + " distribution");
+    unsigned int nbClasses = static_cast<unsigned int>(nbClassesRead);
 
     if (distName == "Gamma")
     {
